@@ -605,6 +605,23 @@ impl<'a> Walk<'a> {
                 // `!` and `~` have no graph construct in this front end: operand walked model-only
                 self.expr(x, None, "unary-operand");
             }
+            Expr::Bin(op, l, r) if matches!(op, BinOp::Lt | BinOp::Le | BinOp::Gt | BinOp::Ge | BinOp::LogAnd | BinOp::LogOr) => {
+                // ordering comparisons and logical operators have no graph construct in this
+                // front end (diagnosed as not implemented): the node is not compared, the
+                // operands are walked model-only so that the usage rules inside them still count
+                for side in [l, r] {
+                    if let Expr::Ident(n) = strip_paren(side) {
+                        if Self::is_quantum(&self.decl_type(self.lookup(n))) {
+                            self.expect_diag("IncompatibleTypesError");
+                        }
+                    }
+                    if let Expr::Hw(_) = strip_paren(side) {
+                        self.expect_diag("IncompatibleTypesError");
+                    }
+                }
+                self.expr(l, None, "binary-left");
+                self.expr(r, None, "binary-right");
+            }
             Expr::Bin(op, l, r) => {
                 let b = match ge {
                     Some(asg::Expr::BinaryExpr(b)) => Some(&**b),
@@ -1323,7 +1340,7 @@ impl<'a> Walk<'a> {
                 // still consumed so that diagnostics stay attributable)
                 self.skip(v);
             }
-            Stmt::ArrayDecl { .. } | Stmt::OldDecl { .. } | Stmt::Extern { .. } | Stmt::Cal(_) | Stmt::DefCalGrammar(_) => {}
+            Stmt::ArrayDecl { .. } | Stmt::IoArrayDecl { .. } | Stmt::OldDecl { .. } | Stmt::Extern { .. } | Stmt::Cal(_) | Stmt::DefCalGrammar(_) => {}
         }
     }
 
